@@ -193,6 +193,13 @@ fn run_op(line: &str) -> R {
             let phrase = utf8(arg(1)?)?;
             let m = Mnemonic::from_phrase(&phrase).map_err(e)?;
             let printed = m.to_phrase();
+            // a copy of the value is the same value: it prints the same and has the same length (and printing twice too)
+            let copy = m.clone();
+            if copy.to_phrase() != printed || copy.to_string() != m.to_string() || copy.mnemonic_length() != m.mnemonic_length()
+                || m.to_phrase() != printed || copy.clone().to_phrase() != printed
+            {
+                return Ok(vec!["impure:a-clone-of-the-mnemonic-prints-differently".into()]);
+            }
             // entropy is not public outside tests; recover it through the hash-free
             // route: the printed phrase determines it, and `mn.parse` on the Lean side
             // returns the same triple, so compare printed form and length only here,
@@ -240,7 +247,12 @@ fn run_op(line: &str) -> R {
                 log.iter().map(|n| n.to_string()).collect::<Vec<_>>().join(",")
             };
             match r {
-                Ok(Ok(m)) => Ok(vec![hx(m.to_phrase().as_bytes()), m.mnemonic_length().to_string(), log_s]),
+                Ok(Ok(m)) => {
+                    if m.clone().to_phrase() != m.to_phrase() {
+                        return Ok(vec!["impure:a-clone-of-the-mnemonic-prints-differently".into()]);
+                    }
+                    Ok(vec![hx(m.to_phrase().as_bytes()), m.mnemonic_length().to_string(), log_s])
+                }
                 Ok(Err(err)) => Err(e(err)),
                 Err(p) => panic::resume_unwind(p),
             }
